@@ -229,7 +229,21 @@ static std::string ws(vh::Rng &r, bool atLeastOne)
 static std::string comment(vh::Rng &r)
 {
   static const char *C[] = {"<!-- a comment -->", "<!---->", "<!-- <not a=\"node\"/> -->", "<!-- dashes - - and > < -->", "<!--\n multi\n line \n-->"};
-  return C[r.below(5)];
+  if (r.chance(1, 2))
+    return C[r.below(5)];
+  // the reader's comment grammar: "<!--", then anything up to the FIRST "-->". Random bodies out of the characters
+  // that matter to a scanner (dash runs of every length, '>', '<', quotes, node look-alikes), including banner
+  // comments that end in a run of dashes; "--"+body never contains "-->", so the comment ends at its last '>'.
+  static const char *B[] = {"-", "--", "---", "----", "-----", ">", "<", " ", " ", "a", "section", "->", "- ", " -", "\n", "<b x='1'/>", "\"", "'", "--!>", "=", "-- >"};
+  std::string body;
+  for (int tries = 0; tries < 20; ++tries) {
+    body.clear();
+    for (int i = 0, n = (int)r.below(7); i < n; ++i)
+      body += B[r.below(sizeof(B) / sizeof(B[0]))];
+    if (("--" + body).find("-->") == std::string::npos)  // the reader scans from right behind "<!"
+      return "<!--" + body + "-->";
+  }
+  return "<!-- -->";
 }
 static void serialize(vh::Rng &r, TNode &n, std::string &out)
 {
